@@ -391,6 +391,17 @@ def judge_session(rep, case, ip, mres, sres, feats_of):
                     ok = False; det.update({'what': 'error raised but the table was modified', 'first_diff': first_diff(before, after)})
             elif after != sd:
                 ok = False; det.update({'what': 'table differs from the list-of-records prediction', 'first_diff': first_diff(sd, after)})
+        # frame, whatever the specification says about the addressed table (also for multi-model inputs, on which it is
+        # silent): an operation addressed to one table never changes another table
+        if mod and ok is not False and op[0] in ('update', 'update_xyz', 'update_column', 'add_column') and after is not None and before is not None:
+            tn = {'update': lambda: op[3], 'update_xyz': lambda: op[2], 'update_column': lambda: op[4], 'add_column': lambda: op[4]}[op[0]]()
+            try:
+                b_tabs = {t[0].upper(): t for t in before[0]}; a_tabs = {t[0].upper(): t for t in after[0]}
+                touched = [n for n in b_tabs if n != str(tn).upper() and a_tabs.get(n) != b_tabs[n]]
+            except Exception:
+                touched = []
+            if touched:
+                ok = False; det.update({'what': 'a table other than the addressed one was modified', 'addressed': tn, 'modified': touched})
         bad = False
         if ok is False:
             rep.mismatch('impl_vs_spec', sub, impl=short(i), spec=short(s), model=short(m), **det)
